@@ -746,7 +746,7 @@ inline void run(Ctx& c, long idx)
         return allocSweep(c, idx - kPairCases - kBurstDet);
     if (idx < kPairCases + kBurstDet + kAllocDet + kCrowd)
         return crowdCase(c, idx - kPairCases - kBurstDet - kAllocDet);
-    if (idx % 16 == 5)
+    if (mix64(static_cast<uint64_t>(idx), 0xb0257) % 16 == 5)  // (by hash, not by idx modulo 16: shards are idx modulo the shard count)
         return burstCase(c, idx, false);
     randomCase(c, idx);
 }
